@@ -61,7 +61,7 @@ type TxnHist struct {
 	// InsertUncertain: a LockKeys call failed while the key carried the flag; whether the client
 	// withdrew the flag depends on where the call failed.
 	InsertUncertain map[string]bool
-	Done          bool
+	Done            bool
 }
 
 // World is everything that exists in one run.
@@ -171,6 +171,7 @@ func newWorld(s *simkit.Sim, sc *Scenario) (*World, error) {
 }
 
 func (w *World) close() {
+	w.Net.Shutdown()
 	for _, st := range w.Stores {
 		_ = st.Close()
 	}
